@@ -239,7 +239,7 @@ def run(tier, only=None):
         rep.harness_error("Engine C cannot encode the current source: %s" % e)
     q = tier == "quick"
     Tm = 100 if q else 400
-    conds = [runner.Cond(HF, "h_choice", Tm, key="choice"), runner.Cond(HF, "h_choice_empty", Tm, key="choice"),
+    conds = [runner.Cond(HF, "h_randint", 2 * Tm, key="randint-value"), runner.Cond(HF, "h_choice", Tm, key="choice"), runner.Cond(HF, "h_choice_empty", Tm, key="choice"),
              runner.Cond(HF, "h_shuffle_injective", 2 * Tm, env={"VERIF_N": "3" if q else "4"}, key="shuffle"),
              runner.Cond(HF, "h_shuffle_draws", Tm, env={"VERIF_N": "4"}, key="shuffle"),
              runner.Cond(HF, "h_neighbors", 3 * Tm, name="h_neighbors[2x2,opt0-1]", env={"VERIF_OPTLO": "0", "VERIF_OPTHI": "1"}, key="neighbors"),
